@@ -17,7 +17,9 @@
    "levels without an escalate command only as starting points", so the hypothesis is generalised
    rather than the platform excluded:
      - [cmds_ok_weak]: every non-root level has a de-escalate command; siblings' NON-EMPTY
-       escalate commands differ; a de-escalate command is not a child's escalate command;
+       escalate commands differ; a NON-ROOT level's de-escalate command is not a child's escalate
+       command (at the root both are "" on nokia_sros: the root's empty de-escalate and the
+       start-only child's empty escalate — harmless, an empty line is a bare return);
      - [enters_ok_b ls p]: every level ENTERED (downwards) along the path p has an escalate
        command — required only of the path actually taken ([nav_reachable_b]).
    [cmds_ok] is the special case ([cmds_ok_weak_of_cmds_ok], [enters_ok_of_no_start_only]).
@@ -440,13 +442,35 @@ Definition nav_platforms : list platform_def := filter nav_ok_b real_platforms.
 Lemma all_network_platforms_nav_ok : forallb nav_ok_b real_network_platforms = true.
 Proof. vm_compute. reflexivity. Qed.
 
+(* NB: [real_platforms] is concrete data.  The proofs below never let [apply]/[rewrite]/conversion
+   unify THROUGH it (the reduction machine would start evaluating the regex matcher on the
+   definitions): the two filtered lists are only used through their membership lemmas, whose
+   proofs unfold the list constant first (Strategy) and then match syntactically. *)
+Local Strategy expand [nav_platforms real_network_platforms].
+
+Lemma real_network_platforms_spec pd :
+  In pd real_network_platforms <-> In pd real_platforms /\ is_network pd = true.
+Proof. unfold real_network_platforms. exact (filter_In is_network pd real_platforms). Qed.
+
+Lemma nav_platforms_spec pd : In pd nav_platforms <-> In pd real_platforms /\ nav_ok_b pd = true.
+Proof. unfold nav_platforms. exact (filter_In nav_ok_b pd real_platforms). Qed.
+
+Lemma forallb_In {A} (f : A -> bool) (l : list A) : forallb f l = true -> forall x, In x l -> f x = true.
+Proof. intros H. apply forallb_forall. exact H. Qed.
+
+Lemma network_platform_real pd :
+  In pd real_platforms -> pf_driver_type (pd_default pd) = bs "network" -> In pd real_network_platforms.
+Proof.
+  intros Hin Hty. apply (proj2 (real_network_platforms_spec pd)). split; [exact Hin|].
+  unfold is_network. rewrite Hty. apply beqb_refl'.
+Qed.
+
 Lemma network_platform_in_nav pd :
   In pd real_platforms -> pf_driver_type (pd_default pd) = bs "network" -> In pd nav_platforms.
 Proof.
-  intros Hin Hty. unfold nav_platforms. apply filter_In. split; [exact Hin|].
-  pose proof all_network_platforms_nav_ok as H. rewrite forallb_forall in H. apply H.
-  unfold real_network_platforms. apply filter_In. split; [exact Hin|].
-  unfold is_network. rewrite Hty. apply beqb_refl'.
+  intros Hin Hty. apply (proj2 (nav_platforms_spec pd)). split; [exact Hin|].
+  exact (forallb_In nav_ok_b real_network_platforms all_network_platforms_nav_ok pd
+                    (network_platform_real pd Hin Hty)).
 Qed.
 
 Lemma nav_ok_parts pd : nav_ok_b pd = true ->
@@ -467,7 +491,7 @@ Theorem nav_platform_hypotheses : forall pd, In pd nav_platforms ->
   /\ unknown_not_twin net (canonical_prompt_of pd)
   /\ cmds_ok_weak (n_levels net).
 Proof.
-  intros pd Hin net Hl OK. unfold nav_platforms in Hin. apply filter_In in Hin. destruct Hin as [_ Hb].
+  intros pd Hin net Hl OK. destruct (proj1 (nav_platforms_spec pd) Hin) as [_ Hb].
   destruct (nav_ok_parts pd Hb) as [H1 [H2 [H3 [H4 [H5 _]]]]]. cbv zeta in *. rewrite <- Hl in *.
   split; [exact H1|]. split; [apply nonempty_names_b_sound; exact H2|].
   split; [apply twins_ok_b_sound; assumption|].
@@ -509,8 +533,8 @@ Theorem platform_navigation_targets : forall pd, In pd nav_platforms ->
                  cache_ok net prompt_of d' target.
 Proof.
   intros pd Hin net prompt_of Hl Hpr OK d cached target Hm Ht Hok C.
-  apply (platform_navigation pd Hin net prompt_of Hl Hpr OK); try assumption.
-  unfold nav_platforms in Hin. apply filter_In in Hin. destruct Hin as [_ Hb].
+  refine (platform_navigation pd Hin net prompt_of Hl Hpr OK d cached target Hm Ht _ C).
+  destruct (proj1 (nav_platforms_spec pd) Hin) as [_ Hb].
   destruct (nav_ok_parts pd Hb) as [_ [_ [_ [_ [_ H6]]]]]. cbv zeta in H6. rewrite <- Hl in H6.
   unfold targets_reachable_b in H6. rewrite forallb_forall in H6. specialize (H6 _ Hm).
   rewrite forallb_forall in H6. specialize (H6 _ Ht). rewrite Hok in H6. exact H6.
@@ -548,9 +572,8 @@ Corollary every_network_platform_navigates_from_start : forall pd, In pd real_pl
                  cache_ok net (canonical_prompt_of pd) d' target.
 Proof.
   intros pd Hin Hty net Hl OK d target Hm Ht Hok U.
-  apply (every_network_platform_navigates pd Hin Hty net Hl OK); try assumption.
-  - right. exact Hok.
-  - right. exact U.
+  exact (every_network_platform_navigates pd Hin Hty net Hl OK d net_unknown_priv target Hm Ht
+           (or_intror Hok) (or_intror U)).
 Qed.
 
 (* ================================================================== *)
@@ -595,17 +618,15 @@ Theorem strict_platform_navigation : forall pd, In pd real_platforms ->
 Proof.
   intros pd Hin Hty Hnk net Hl OK.
   assert (Hs : cmds_ok_b (n_levels net) = true).
-  { pose proof strict_platforms_known as H. rewrite forallb_forall in H.
-    assert (Hr : In pd real_network_platforms).
-    { unfold real_network_platforms. apply filter_In. split; [exact Hin|].
-      unfold is_network. rewrite Hty. apply beqb_refl'. }
-    specialize (H pd Hr). apply orb_true_iff in H. destruct H as [H|H].
+  { pose proof (forallb_In _ real_network_platforms strict_platforms_known pd
+                           (network_platform_real pd Hin Hty)) as H.
+    cbv beta in H. apply orb_true_iff in H. destruct H as [H|H].
     - rewrite Hl. exact H.
-    - exfalso. apply Hnk. apply mem_bytes_In. exact H. }
+    - exfalso. apply Hnk. exact (proj1 (mem_bytes_In _ _) H). }
   split; [apply cmds_ok_b_sound; exact Hs|].
   intros d cached target Hm Ht C.
-  apply (every_network_platform_navigates pd Hin Hty net Hl OK); try assumption.
-  left. unfold nav_reachable_b.
+  refine (every_network_platform_navigates pd Hin Hty net Hl OK d cached target Hm Ht (or_introl _) C).
+  unfold nav_reachable_b.
   destruct (nav_platform_hypotheses pd (network_platform_in_nav pd Hin Hty) net Hl OK) as [W _].
   destruct (tree_path_spec_strong _ W _ _ Hm Ht) as [p [Hp _]]. rewrite Hp.
   apply enters_ok_of_no_start_only. apply cmds_ok_b_no_start_only. exact Hs.
@@ -628,6 +649,45 @@ Definition start_only_fails_b (pd : platform_def) : bool :=
 Lemma start_only_levels_unreachable : forallb start_only_fails_b real_network_platforms = true.
 Proof. vm_compute. reflexivity. Qed.
 
+(* non-vacuity: the hypotheses on [net] are satisfiable (identity iteration orders), so on every
+   embedded network platform the statement applies to every pair of levels *)
+Corollary every_network_platform_navigates_identity_order : forall pd, In pd real_platforms ->
+  pf_driver_type (pd_default pd) = bs "network" ->
+  forall m target log, In m (names (pd_levels pd)) -> In target (names (pd_levels pd)) ->
+    target_ok_b (pd_levels pd) target = true ->
+    exists p d', tree_path (pd_levels pd) m target = Some p /\
+                 acquire_priv_abs (lnet (pd_levels pd)) (canonical_prompt_of pd) (mkADev m log) m target = AOk d' target /\
+                 d_mode d' = target /\ d_log d' = log ++ path_cmds (pd_levels pd) p.
+Proof.
+  intros pd Hin Hty m target log Hm Ht Hok.
+  destruct (every_network_platform_navigates pd Hin Hty (lnet (pd_levels pd)) eq_refl
+              (lnet_orders_ok _) (mkADev m log) m target Hm Ht (or_intror Hok) (or_introl eq_refl))
+    as [p [d' [H1 [H2 [H3 [H4 _]]]]]].
+  exists p, d'. repeat split; assumption.
+Qed.
+
+(* independent cross-check by execution (does not use the theorems): on every embedded network
+   platform, for every pair (m, target) with an enterable target, running the abstract AcquirePriv
+   with the device in m and the cache m ends in the target having sent the tree-path commands *)
+Fixpoint log_eqb (a b : list (bytes * bytes)) : bool :=
+  match a, b with
+  | [], [] => true
+  | (x1, y1) :: ta, (x2, y2) :: tb => beqb x1 x2 && beqb y1 y2 && log_eqb ta tb
+  | _, _ => false
+  end.
+
+Definition nav_executes_b (pd : platform_def) : bool :=
+  let ls := pd_levels pd in
+  forallb (fun m => forallb (fun t =>
+     negb (target_ok_b ls t)
+     || match tree_path ls m t, acquire_priv_abs (lnet ls) (canonical_prompt_of pd) (mkADev m []) m t with
+        | Some p, AOk d' c => beqb (d_mode d') t && beqb c t && log_eqb (d_log d') (path_cmds ls p)
+        | _, _ => false
+        end) (names ls)) (names ls).
+
+Lemma nav_executes_everywhere : forallb nav_executes_b real_network_platforms = true.
+Proof. vm_compute. reflexivity. Qed.
+
 (* informational (printed at compile time, asserts nothing): the current data *)
 Eval vm_compute in map (fun pd => (pd_file pd, start_only (pd_levels pd)))
                        (filter (fun pd => match start_only (pd_levels pd) with [] => false | _ => true end)
@@ -640,5 +700,7 @@ Print Assumptions platform_navigation_targets.
 Print Assumptions every_network_platform_navigates.
 Print Assumptions every_network_platform_navigates_from_start.
 Print Assumptions strict_platform_navigation.
+Print Assumptions every_network_platform_navigates_identity_order.
+Print Assumptions nav_executes_everywhere.
 Print Assumptions start_only_levels_known.
 Print Assumptions start_only_levels_unreachable.
